@@ -318,6 +318,7 @@ func init() {
 			c01("H_snip", map[string]int{"n": 1, "lo": 34, "hi": 37}, "quickonly", "parsed", "accepted", "rejected", "ran"),
 			c01("H_snip", map[string]int{"n": 0, "pool": 1, "lo": 34, "hi": 49}, "quickonly", "parsed", "accepted", "rejected", "ran"),
 			c01("H_snip", map[string]int{"n": 0, "pool": 1}, "thorough", "parsed", "accepted", "rejected", "ran"),
+			c01("H_lex_mid", n(1), "quick", "lexed"), c01("H_lex_mid", map[string]int{"n": 2, "lo": 12, "hi": 15}, "quickonly", "lexed"), c01("H_lex_mid", n(2), "thorough", "lexed"),
 			c01("H_trunc", n(0), "quick", "parsed", "accepted", "rejected", "ran"),
 			c01("H_trunc", map[string]int{"n": 1, "lo": 34, "hi": 46}, "thorough", "parsed", "accepted", "rejected", "ran"),
 			c01("H_snip", n(1), "thorough", "parsed", "accepted", "rejected", "ran"),
